@@ -239,7 +239,7 @@ def check_case(case):
 
 
 def case_strategy():
-    setting = st.one_of(st.none(), st.just({}),
+    setting = st.one_of(st.none(), st.just({}), st.sampled_from([{"constants": {}}, {"points": {}}, {"constants": {}, "points": {}}]),
                         st.sampled_from([0.5, 1.0, 3.0, 7.0]).map(lambda v: {"constants": {"k": v}}),
                         st.sampled_from([1.0, 5.0, 20.0]).map(lambda v: {"points": {"p": [[0.0, 0.0], [10.0, v]]}}),
                         st.sampled_from([1.0, 4.0]).map(lambda v: {"constants": {"k": v}, "points": {"p": [[0.0, 1.0], [10.0, v]]}}))
